@@ -281,6 +281,22 @@ def check_valid(prog: Program, res: Result) -> None:
             res.ob(R, okv, fi.qualname, "boxes are built for rough_peaks[valid_idx]", f"boxes are built for `{short(b3.get('centroids'), 50)}`", where)
             okb = okv and T(b3.get("box_height")) == T(b3.get("box_width")) and T(b3.get("box_height")) in (n, "integral_patch_size")
         res.ob(R, okb, fi.qualname, "patch boxes centred on the valid peaks", "patch boxes are not centred on the valid peaks with the patch size", where)
+    # the patches are cut only when some peak is valid: the crop is reached only through a test of `isnan(rough).all()`
+    # (with no valid peak the box tensor is empty and crop_bboxes indexes bboxes[0])
+    from ..core.cfg import CFG as _CFG
+    cfg_ = _CFG(fn)
+    crops_ = [c_ for c_, q_ in prog.calls_in(fi) if q_ == f"{PF}:crop_bboxes"]
+    tests_ = set()
+    for t_ in walk_function(fn):
+        if isinstance(t_, ast.If):
+            tt_ = norm(astq.expand_at(fn, t_.test, t_))
+            if "isnan(" in tt_ and (".all()" in tt_ or ".any()" in tt_):     # isnan(x).all()  /  not (~isnan(x)).any()  (the quantifier itself: C12-exist)
+                tests_ |= set(cfg_.nodes_of(t_))
+    for c_ in crops_:
+        w_ = cfg_.must_pass([cfg_.entry], cfg_.stmt_nodes_containing(c_), tests_)
+        res.ob(R, w_ is None, fi.qualname, "no crop without a valid peak (all-NaN batches return the rough result)",
+               f"crop_bboxes is reached without testing whether ANY rough peak is valid ({cfg_.path_str(w_) if w_ else ''}): when every map is below the threshold the box list is "
+               "empty and the refinement raises instead of returning NaN peaks with value 0", where)
     # returns
     rets = [n_ for n_ in walk_function(fn) if isinstance(n_, ast.Return)]
     n_ref = 0
